@@ -70,7 +70,7 @@ BOUNDS = {
              "sin(q)*cos(q)); REDUCTION FORMS x RANK x AXIS: {add, multiply, divide, maximum}.{reduce, accumulate, reduceat} and sum/prod/"
              "np.prod/cumsum/np.cumprod/max on shapes (2,) [(3,) for reduceat, indices [0,1]] and (2,3) with axis omitted / 0 / 1 / -1 / "
              "None / (0,) / (0,1) / (1,) where NumPy accepts the call, keepdims, a where= mask [T,F,T]; power with a concrete exponent "
-             "ARRAY [2,2] / [2,3] on a base of rank 0 and 1; np.clip, 10 depth-2 programs}; operand unit shapes {atomic, k/m-"
+             "ARRAY [2,2] / [2,3] on a base {kxa, km/m} of rank 0 and 1; np.clip, 10 depth-2 programs}; operand unit shapes {atomic, k/m-"
              "prefixed, ua*ub, ua/ub, ua**2 with symbolic scales; table pairs that cancel in products: km~m, m~cm, hr~min, km/hr~m/s, "
              "km/m, cm**2~1/m ... with concrete scales and symbolic values; PARTLY CANCELLING pairs (atoms of derived dimension xv "
              "velocity, xf force, xj energy with symbolic scales, and table units N, dyn, J, mJ, erg, W, Pa, mile, mph): 16 quotient pairs "
@@ -93,8 +93,8 @@ BOUNDS = {
                 "{xgo, lat, lon} x shapes (), (2,) plus (2,2), and the offset-free units through every history; reduction forms: all ten "
                 "ufuncs {add subtract maximum minimum fmax fmin hypot multiply divide true_divide} x three methods x both ranks x every "
                 "legal axis argument on kxa (reduceat of the others than add/multiply: axis omitted/0/1), add/multiply/divide reduce and "
-                "accumulate of rank 2 also on km/m and xa/xs, twelve function forms; exponent arrays [2,2] [1/2,1/2] [2,3] [2] on "
-                "{kxa, km/m}",
+                "accumulate of rank 2 also on km/m and xa/xs, twelve function forms; exponent arrays [2,2] [3,3] [1/2,1/2] [-1,-1] [2,3] [2] on "
+                "{kxa, km/m, xp, xa/xs}",
 }
 OUTSIDE = ("IEEE rounding/overflow/nan (A1); integer and complex payloads (C17); ARITHMETIC on units with an offset (a point plus a point, "
            "the negative or a multiple of a point, the order of two points: C08 decides the point/difference semantics for temperature; "
@@ -1599,14 +1599,11 @@ def cases(tier, mods):
             add(make_power_case(e, "out", U_("kxa")))
         add(make_power_case(e, "op", U_("kxa"), (2,)))
     # array exponents (concrete), base of rank 0 and 1
-    # (most of them hit a known finding - every counterexample is replayed serially: the list is kept short)
-    for exps in ([[2, 2], [2, 3]] if quick else [[2, 2], [F(1, 2), F(1, 2)], [2, 3], [2]]):
+    for exps in ([[2, 2], [2, 3]] if quick else [[2, 2], [3, 3], [F(1, 2), F(1, 2)], [-1, -1], [2, 3], [2]]):
         for f in ("op", "ufunc"):
-            for sp in (["kxa"] if quick else ["kxa", "km/m"]):
+            for sp in (["kxa", "km/m"] if quick else ["kxa", "km/m", "xp", "xa/xs"]):
                 for sh in ((), (2,)):
                     add(make_power_array_case(exps, f, U_(sp), sh))
-    if quick:
-        add(make_power_array_case([2, 3], "op", U_("km/m"), (2,)))
     # reductions
     rkinds = ["add.reduce", "add.accumulate", "multiply.reduce", "multiply.accumulate", "sum", "prod", "cumsum", "np.sum", "np.prod", "np.cumsum"]
     rspecs = ["xa", "kxa", "xa/xs", "km/m"] if quick else UNARY_SPECS
